@@ -90,8 +90,10 @@ func loadPath(root string) (pemBlocks map[string][]byte, err error) {
 		}
 
 		if info.Size() > MaxSize {
-			log.Printf("[WARN] cert: File too large %s", info.Name())
-			return nil
+			// Leaving the file out would publish a set without this
+			// certificate and take a working one away from the
+			// listener. Like any other unusable file it fails the load.
+			return fmt.Errorf("cert: file too large %s", path)
 		}
 
 		buf, err := os.ReadFile(path)
